@@ -481,6 +481,7 @@ pub fn c01_families(tier: &str) -> Vec<SeqSpec> {
     );
     v.push(staggered_family("F-staggered/T300", if t { 6 } else { 4 }, READS));
     v.push(boundary_tables_family("F-boundary-tables/T300", if t { 4 } else { 3 }, READS));
+    v.push(l0_nested_family("F-l0-nested/T300", if t { 4 } else { 2 }, READS));
     v.push(l0_overlap_family("F-l0-overlap-low/T300", true, if t { 4 } else { 3 }, READS));
     v.push(l0_overlap_family("F-l0-overlap-high/T300", false, if t { 4 } else { 3 }, READS));
     // from the empty database with tiny level limits: files with distinct keys are moved down level
@@ -600,6 +601,7 @@ pub fn c07(tier: &str) -> ! {
     // the extreme byte-string keys (empty, 0x00, 0xff) through deletes and ranged compactions
     fams.push(spec("C07-bytes/T300", &["T300"], vec![vec![], vec![0x00], vec![0xff]], a_c07_small(), if t { 5 } else { 3 }, ck).flush());
     fams.push(boundary_tables_family("C07-boundary-tables/T300", if t { 4 } else { 3 }, ck));
+    fams.push(l0_nested_family("C07-l0-nested/T300", if t { 4 } else { 2 }, ck));
     fams.push(l0_overlap_family("C07-l0-overlap-low/T300", true, if t { 4 } else { 3 }, ck));
     fams.push(l0_overlap_family("C07-l0-overlap-high/T300", false, if t { 4 } else { 3 }, ck));
     if t {
@@ -607,7 +609,17 @@ pub fn c07(tier: &str) -> ! {
         fams.push(spec("C07-ranged/T1", &["T1"], k3(), a_c07_small(), 5, ck).flush());
         fams.push(spec("C07-ranged/M2", &["M2"], k3(), a_c07_small(), 5, ck).bgfirst());
     }
-    run_families(&mut rep, fams, budget(tier), |c| c.starts_with("C07.") || c.starts_with("C01.") || c.starts_with("C03."));
+    let t_budget = budget(tier);
+    run_families(&mut rep, fams, t_budget.mul_f32(0.85), |c| c.starts_with("C07.") || c.starts_with("C01.") || c.starts_with("C03."));
+    {
+        use crate::props_sched::{close_during_compaction_programs, run_sched};
+        let own = |c: &str| c.starts_with("C07.");
+        if t {
+            run_sched(&mut rep, "close-during-compaction/p2d4", &close_during_compaction_programs(), (2, 4), 16, false, 2, Duration::from_secs(600), own);
+        } else {
+            run_sched(&mut rep, "close-during-compaction/p1d3", &close_during_compaction_programs(), (1, 3), 4, false, 1, Duration::from_secs(10), own);
+        }
+    }
     finish_common(&mut rep);
     rep.cov("oracle", json!("differential: full dump (gets + scan at the latest state and at every live snapshot) immediately before each flush / compact_range / quiesce equals the dump after it and after background work went idle; plus model comparison of gets and snapshot reads after every operation"));
     rep.finish()
@@ -1120,6 +1132,30 @@ pub fn l0_overlap_family(name: &str, low: bool, depth: usize, ck: Checks) -> Seq
         vec![Op::Put(0, 0), Op::Flush, Op::Put(0, 0), Op::Flush, Op::Batch(vec![(0, true), (1, true), (2, true)]), Op::Flush, Op::Batch(vec![(1, true), (3, true)]), Op::Flush]
     };
     spec(name, &["T300"], k4s(), alphabet, depth, ck).flush().with_setup(setup)
+}
+
+/// An older level-0 table nested inside the key range of a newer, larger one (the older one comes
+/// from the WAL replay of a reopen without log reuse, so there is no level-1 table underneath; the
+/// newer one holds a 3000-byte value and exceeds max_file_size): manual compactions over every
+/// range must never move the newer table down alone.
+pub fn l0_nested_family(name: &str, depth: usize, ck: Checks) -> SeqSpec {
+    let mut alphabet = vec![Op::Put(1, 0), Op::Del(1), Op::Put(3, 0)];
+    let ends: Vec<Option<u8>> = vec![None, Some(0), Some(1), Some(2), Some(3)];
+    for b in ends.iter() {
+        for e in ends.iter() {
+            let keep = match (b, e) {
+                (None, _) | (_, None) => true,
+                (Some(x), Some(y)) => x == y || (*x == 0 && *y == 2),
+            };
+            if keep {
+                alphabet.push(Op::Compact(*b, *e));
+            }
+        }
+    }
+    alphabet.push(Op::Reopen(0));
+    // older level-0 table [d]; newer level-0 table [c(3000 B) d e]
+    let setup = vec![Op::Put(1, 0), Op::Reopen(1), Op::Put(0, 3), Op::Put(2, 0), Op::Put(1, 0), Op::Flush];
+    spec(name, &["T300", "T300n"], k4s(), alphabet, depth, ck).with_setup(setup)
 }
 
 /// Boundary tables: two neighbouring level-1 tables that split the versions of one user key
